@@ -43,7 +43,7 @@ def run(run_, ctx):
         ("E", "ser_entry", lambda k: k in ("ser::to_io", "ser::to_eio"), "writer entry point"),
     ])
     run_.floor("R", 10)
-    run_.floor("B", 4)
+    run_.floor("B", 1)
     run_.floor("W", 8)
     run_.floor("E", 4)
     F = ctx.facts("A")
